@@ -3,7 +3,7 @@
 From Coq Require Import List NArith ZArith Bool Arith String.
 Import ListNotations.
 Require Import Scan Parse Construct ConstructLemmas.
-Require Flatten FlattenMany.
+Require Flatten FlattenMany FlattenRec DictBuild.
 
 (* KIND C14_equal_keys_first_position : U *)
 (* inserting a key equal to one already present keeps the existing key object and its position; a new key goes to the end *)
@@ -115,6 +115,78 @@ Example C14_two_adjacent_merges :
   match flatten 4 0 s with LOk (_, s') => option_map map_items (nth_error (nodes s') 0) = Some [(7, 8); (9, 10); (5, 6)] | _ => False end.
 Proof. exact FlattenMany.two_adjacent_merges. Qed.
 
-(* PARTIAL: flatten_spec / dict_of_flatten (merge precedence, recursion), flatten_idempotent (shared sources) and the shape errors are
-   not proved on the in-place flatten model; they are decided by the construct correspondence and by the direct run against an independent
-   evaluator of the YAML 1.1 mapping/merge rules over generated mappings. *)
+(* KIND C14_flatten_nested_merges : U *)
+(* NESTED merges, to any depth: a merged mapping may have merge keys of its own, the value of a merge key may be a mapping or a list of
+   mappings, `=` keys may occur anywhere, and sources may be SHARED (one anchored mapping merged into many others, or twice into one list).
+   rk is any ranking of the node ids along which every merge source has a smaller rank than the mapping merging it (the merge graph has no
+   cycle).  FlattenRec.Flat rk ns f id r reads the fully flattened pair list r of mapping id off the node store ns as it is BEFORE the call, by
+   the YAML 1.1 rules: the merged pairs in the order of the merge keys (for a list value the last mapping of the list first), every source
+   flattened the same way, then the own pairs; f bounds the depth and the lengths (the model's fuel).  Then flatten_mapping terminates
+   without an error, node id holds exactly r, and EVERY node afterwards has its old kind and contents or - a mapping reached through merge
+   keys - its own fully flattened list; the only tag that may change is a `=` key's, to str.  (Proofs/FlattenRec.v: induction on the depth;
+   inside, induction over the pairs with the in-place updates; a source met again is already flat and is left as it is.) *)
+Theorem C14_flatten_nested_merges : forall rk f id r s, FlattenRec.Flat rk (nodes s) f id r ->
+  exists s', flatten f id s = LOk (tt, s') /\ (exists n', nth_error (nodes s') id = Some n' /\ n_kind n' = NMap r) /\
+    forall j, match nth_error (nodes s) j, nth_error (nodes s') j with
+              | Some n0, Some n => FlattenRec.tagrel (n_tag n0) (n_tag n) /\
+                                  (n_kind n = n_kind n0 \/ exists f1 r1, FlattenRec.Flat rk (nodes s) f1 j r1 /\ n_kind n = NMap r1)
+              | None, None => True | _, _ => False end.
+Proof. exact FlattenRec.flatten_nested_merges. Qed.
+Eval vm_compute in "ASSUME:C14_flatten_nested_merges"%string. Print Assumptions C14_flatten_nested_merges.
+(* KIND C14_flattened_list_is_unique : U *)
+(* the flattened list of a mapping is determined by the node store: it does not depend on the depth bound or on the ranking's values *)
+Theorem C14_flattened_list_is_unique : forall rk ns f id r, FlattenRec.Flat rk ns f id r -> forall f' r', FlattenRec.Flat rk ns f' id r' -> r = r'.
+Proof. exact FlattenRec.Flat_det. Qed.
+Eval vm_compute in "ASSUME:C14_flattened_list_is_unique"%string. Print Assumptions C14_flattened_list_is_unique.
+(* KIND C14_flattened_keys_are_not_merge_keys : U *)
+Theorem C14_flattened_keys_are_not_merge_keys : forall rk ns f id r, FlattenRec.Flat rk ns f id r ->
+  forall k v, In (k, v) r -> exists kn, nth_error ns k = Some kn /\ str_eqb (n_tag kn) t_merge = false.
+Proof. exact FlattenRec.Flat_keys. Qed.
+Eval vm_compute in "ASSUME:C14_flattened_keys_are_not_merge_keys"%string. Print Assumptions C14_flattened_keys_are_not_merge_keys.
+(* KIND C14_nested_shared_merges : F *)
+(* non-vacuity:  a: &a {x: 1}   b: &b {<<: *a, y: 2}   c: {<<: [*b, *a], z: 3}  - nested, shared, and a list.  Node 0 is c, 5 is b, 6 is a:
+   c becomes [x; x; y; z] (inserted in this order: b's y, a's x, own z), b becomes [x; y] in place, a is untouched *)
+Example C14_nested_shared_merges :
+  let mk0 := {| m_index := 0; m_line := 0; m_col := 0 |} in
+  let sc t v := {| n_tag := t; n_kind := NScalar v SPlain; n_start := mk0 |} in
+  let mp l := {| n_tag := t_map; n_kind := NMap l; n_start := mk0 |} in
+  let sq l := {| n_tag := t_seq; n_kind := NSeq l; n_start := mk0 |} in
+  let ns := [mp [(1, 2); (3, 4)]; sc t_merge [60; 60]%N; sq [5; 6]; sc t_str [122%N]; sc t_int [51%N];
+             mp [(7, 6); (8, 9)]; mp [(10, 11)]; sc t_merge [60; 60]%N; sc t_str [121%N]; sc t_int [50%N]; sc t_str [120%N]; sc t_int [49%N]] in
+  let s := {| nodes := ns; hp := []; cache := []; recursive := []; gens := [] |} in
+  let rk := fun j => match j with 0 => 2 | 5 => 1 | _ => 0 end in
+  FlattenRec.Flat rk ns 4 0 [(10, 11); (10, 11); (8, 9); (3, 4)] /\
+  match flatten 4 0 s with
+  | LOk (_, s') => map (fun j => option_map map_items (nth_error (nodes s') j)) [0; 5; 6] =
+                   [Some [(10, 11); (10, 11); (8, 9); (3, 4)]; Some [(10, 11); (8, 9)]; Some [(10, 11)]]
+  | _ => False end.
+Proof. exact FlattenRec.nested_shared_merges. Qed.
+
+(* KIND C14_last_occurrence_wins : U *)
+(* the dictionary construct_mapping builds (DictBuild.build = inserting the pairs in order with dict_set) from ANY list of pairs with string keys,
+   on top of any dictionary d: every key has the value of its LAST occurrence in the list, or its value in d if it does not occur *)
+Theorem C14_last_occurrence_wins : forall ps d s, DictBuild.str_keys ps ->
+  option_map snd (dict_find (PStr s) (DictBuild.build ps d)) =
+  match DictBuild.last_val (PStr s) ps with Some v => Some v | None => option_map snd (dict_find (PStr s) d) end.
+Proof. exact DictBuild.last_occurrence_wins. Qed.
+Eval vm_compute in "ASSUME:C14_last_occurrence_wins"%string. Print Assumptions C14_last_occurrence_wins.
+(* KIND C14_own_pairs_override_merged : U *)
+(* applied to what flatten_mapping leaves (C14_flatten_nested_merges: the merged pairs m, then the own pairs o), string keys: an own key has its
+   own value whatever was merged; a key that is not an own key has the value of the LAST merged pair carrying it - so a later `<<` key overrides an
+   earlier one and, since a list value contributes its last mapping first, an EARLIER mapping of a `<<: [a, b]` list overrides a later one *)
+Theorem C14_own_pairs_override_merged : forall m o s, DictBuild.str_keys (m ++ o)%list ->
+  option_map snd (dict_find (PStr s) (DictBuild.build (m ++ o)%list [])) =
+  match DictBuild.last_val (PStr s) o with Some v => Some v | None => DictBuild.last_val (PStr s) m end.
+Proof. exact DictBuild.own_pairs_override_merged. Qed.
+Eval vm_compute in "ASSUME:C14_own_pairs_override_merged"%string. Print Assumptions C14_own_pairs_override_merged.
+(* KIND C14_merge_example : F *)
+(* {<<: {x: 1, y: 2}, x: 3}: flattened to [x:1; y:2; x:3]; the dictionary is {x: 3, y: 2} *)
+Example C14_merge_example :
+  let x := PStr [120%N] in let y := PStr [121%N] in
+  DictBuild.build ([(x, PInt 1); (y, PInt 2)] ++ [(x, PInt 3)]) [] = [(x, PInt 3); (y, PInt 2)] /\
+  DictBuild.str_keys ([(x, PInt 1); (y, PInt 2)] ++ [(x, PInt 3)]).
+Proof. exact DictBuild.merge_example. Qed.
+
+(* PARTIAL: the override order for keys that are not strings (numbers compare by value: 1 == 1.0 == True), cyclic merge graphs and the
+   shape errors are not proved on the in-place flatten model; they are decided by the construct correspondence and by the direct run against an
+   independent evaluator of the YAML 1.1 mapping/merge rules over generated mappings. *)
